@@ -24,14 +24,21 @@ func TestMain(m *testing.M) { ev.Main(m, "C13") }
 // many digits); below it the grammar decides alone
 const expTolerance = 100000
 
+// newNumber hands the text over in a buffer that is overwritten straight afterwards, the way a caller
+// with one token buffer does: a Number denotes the text it was made from, not what the buffer holds later
 func newNumber(s string) (n *jjson.Number, err error, esc *sut.Escape) {
-	esc = sut.Trap("NewNumber", func() { n, err = jjson.NewNumber(jbytes.NewBytes(s)) })
+	buf := []byte(s)
+	esc = sut.Trap("NewNumber", func() { n, err = jjson.NewNumber(jbytes.NewBytes(buf)) })
+	for i := range buf {
+		buf[i] = '7'
+	}
 	return
 }
 
 var digit19 = regexp.MustCompile(`[1-9]+`)
 var zeroExp = regexp.MustCompile(`^-?0[eE][+-]?[0-9]+$`)
 
+var longPad = regexp.MustCompile(`[eE][+-]?0[0-9]{7,}`)
 var digitRun = regexp.MustCompile(`[0-9]+`)
 
 // shape is a coarse class of a text: digit runs collapse to d; a text that is an unfinished number
@@ -227,9 +234,33 @@ func TestPropGrammar(t *testing.T) {
 			ev.Sample("grammar", s)
 		}
 	})
+	// the one unbounded-length part of the grammar that carries no value: leading zeros of the exponent
+	if i, _ := ev.Shard(); i == 0 {
+		for _, mant := range []string{"1", "-1.5", "0.0"} {
+			for _, e := range []string{"e", "E"} {
+				for _, sign := range []string{"", "+", "-"} {
+					for pad := 0; pad <= 40; pad++ {
+						for _, val := range []string{"0", "1", "9", "10", "999"} {
+							s := mant + e + sign + strings.Repeat("0", pad) + val
+							n++
+							nt++
+							if v := single(s); v != nil && ev.Report("grammar", s, v) {
+								bad++
+							}
+							for _, o := range []string{mant + e + sign + val, "1e1", "-15"} {
+								if v := pair(Pair{s, o}); v != nil && ev.Report("pairs", Pair{s, o}, v) {
+									bad++
+								}
+							}
+						}
+					}
+				}
+			}
+		}
+	}
 	ev.Count("grammar", n)
 	ev.NonTrivialEnum("grammar", nt)
-	ev.Exhaustive("grammar", fmt.Sprintf("every string of length <= %d over %v", maxLen, alpha))
+	ev.Exhaustive("grammar", "exponents with 0..40 leading zeros (3 mantissas x e/E x sign x 5 values), each also compared with its unpadded spelling; and "+fmt.Sprintf("every string of length <= %d over %v", maxLen, alpha))
 	if bad > 0 {
 		t.Errorf("VIOLATION-CANDIDATE grammar: %d strings", bad)
 	}
@@ -356,7 +387,7 @@ func withExp(t *rapid.T, s, label string) string {
 	if e < 0 {
 		e, sign = -e, "-"
 	}
-	pad := rapid.SampledFrom([]string{"", "", "0", "00"}).Draw(t, label+"pad")
+	pad := rapid.SampledFrom([]string{"", "", "0", "00", "0000000", "00000000", "000000000", "000000000000000000000000000000"}).Draw(t, label+"pad")
 	return fmt.Sprintf("%s%s%s%s%d", s, rapid.SampledFrom([]string{"e", "E"}).Draw(t, label+"E"), sign, pad, e)
 }
 
@@ -457,6 +488,9 @@ func TestPropRandom(t *testing.T) {
 		if pairNontrivial(ra, rb, p) {
 			ev.NonTrivial("pairs-random", p.A+" "+p.B)
 			ev.Class("pairs-random", pairClass(ra, rb))
+			if longPad.MatchString(p.A) || longPad.MatchString(p.B) {
+				ev.Class("pairs-random", "exponent zero-padded to 8+ digits")
+			}
 			if ev.WantSample("pairs-random") {
 				ev.Sample("pairs-random", p)
 			}
